@@ -63,9 +63,10 @@ func checkC04(c gen.ProgCase) Verdict {
 	case want.Status == ref.Valueless:
 		return excluded("outside the subset both backends define (the Go render fails)")
 	}
-	if !witness && findingOpen("F14") && hasAstral(fmt.Sprint(srcs, c.Data, c.IJ)) && strings.Contains(strings.Join(srcs, ""), "|truncate") {
-		return excluded("known finding F14: truncate of characters outside the BMP")
-	}
+	// known finding F14 (truncate counts UTF-16 units in JavaScript, characters in Go): a difference
+	// between the backends in a program that truncates and has characters outside the BMP is put down to
+	// it (and counted); such programs are still judged when the backends agree
+	f14 := !witness && findingOpen("F14") && hasAstral(fmt.Sprint(srcs, c.Data, c.IJ)) && strings.Contains(strings.Join(srcs, ""), "truncate")
 	cb, err, pn := compileBundle(names, srcs, c.Prog.Globals)
 	if err != nil || pn != nil {
 		return excluded("does not compile (C01/C02 matter)")
@@ -103,6 +104,9 @@ func checkC04(c gen.ProgCase) Verdict {
 	}
 	if c04rec != nil {
 		c04rec.add("outputs_compared", 1)
+	}
+	if ref.CanonRefs(r.Out) != ref.CanonRefs(rr.out) && f14 {
+		return excluded("known finding F14: truncate of characters outside the BMP")
 	}
 	if ref.CanonRefs(r.Out) != ref.CanonRefs(rr.out) {
 		note := ""
@@ -151,7 +155,9 @@ func checkC04(c gen.ProgCase) Verdict {
 				return bad(true, "generated JavaScript (with a message bundle) for %s does not load: %s\n%s", mfiles[i].Name, *l, mfiles[i].Src)
 			}
 		}
-		if mr := mresp.Results[0]; !mr.OK || ref.CanonRefs(mr.Out) != ref.CanonRefs(gbuf.String()) {
+		if mr := mresp.Results[0]; (!mr.OK || ref.CanonRefs(mr.Out) != ref.CanonRefs(gbuf.String())) && f14 {
+			return excluded("known finding F14: truncate of characters outside the BMP")
+		} else if !mr.OK || ref.CanonRefs(mr.Out) != ref.CanonRefs(gbuf.String()) {
 			return bad(true, "outputs differ with a message bundle\n js %q (error %q)\n go %q\n%s data=%v\n%s", mr.Out, mr.Error, gbuf.String(), showSources(names, srcs), c.Data, showJS(mfiles))
 		}
 		if c04rec != nil {
